@@ -124,7 +124,16 @@ func (c *core) execFunc() (*Response, error) {
 		}
 		return resp, nil
 	case <-c.ctx.Done():
-		atomic.SwapInt32(&done, 1)
+		if atomic.SwapInt32(&done, 1) == 1 {
+			// The request goroutine finished first and is about to write its result into
+			// resp and errCh. Both go back to their pools when we return, so wait for it
+			// instead of letting it write into objects that already belong to another request.
+			if err := <-errCh; err != nil {
+				ReleaseResponse(resp)
+				return nil, err
+			}
+			return resp, nil
+		}
 		ReleaseResponse(resp)
 		return nil, ErrTimeoutOrCancel
 	}
